@@ -28,6 +28,8 @@ type tcpProxy struct {
 	lose      bool
 	Flushes   int
 	Dropped   int
+	// remote->local bytes per second (0: unlimited) (throttle.go)
+	rate int64
 }
 
 func newProxy(target string) (*tcpProxy, error) {
@@ -167,8 +169,12 @@ func remoteScenarios(c *Ctx) []remoteScenario {
 }
 
 func runRemote(c *Ctx, sh *shared, dir string) {
-	if os.Getenv("C05_SCEN") == "cancels" { // development aid
+	switch os.Getenv("C05_SCEN") { // development aid
+	case "cancels":
 		runCancels(c, sh, filepath.Join(dir, "cancels"))
+		return
+	case "throttled":
+		runThrottled(c, sh, filepath.Join(dir, "throttled"))
 		return
 	}
 	scs := remoteScenarios(c)
@@ -195,7 +201,8 @@ func runRemote(c *Ctx, sh *shared, dir string) {
 		sh.im.Extra["wall:"+name] = time.Since(t0).Round(100 * time.Millisecond).String()
 		sh.mu.Unlock()
 	}
-	wg.Add(3)
+	wg.Add(4)
+	go timed("throttled", func() { runThrottled(c, sh, filepath.Join(dir, "throttled")) })
 	go timed("cancels", func() { runCancels(c, sh, filepath.Join(dir, "cancels")) })
 	go timed("stalls", func() { runStalls(c, sh, filepath.Join(dir, "stalls")) })
 	go timed("standin", func() { runStandin(c, sh, filepath.Join(dir, "standin")) })
